@@ -1211,7 +1211,8 @@ func (p *Parser) parseBindingElement(decl DeclType) (bindingElement BindingEleme
 
 func (p *Parser) parseBinding(decl DeclType) (binding IBinding) {
 	p.exprLevel++
-	defer func() { p.exprLevel-- }()
+	prevIn := p.in
+	defer func() { p.exprLevel--; p.in = prevIn }()
 	if NestedExprLimit < p.exprLevel {
 		p.failMessage("too many nested expressions")
 		return
@@ -1228,6 +1229,7 @@ func (p *Parser) parseBinding(decl DeclType) (binding IBinding) {
 		p.next()
 	} else if p.tt == OpenBracketToken {
 		p.next()
+		p.in = true // initializers in a binding pattern allow the in operator, also in a for statement
 		array := BindingArray{}
 		if p.tt == CommaToken {
 			array.List = append(array.List, BindingElement{})
@@ -1267,6 +1269,7 @@ func (p *Parser) parseBinding(decl DeclType) (binding IBinding) {
 		binding = &array
 	} else if p.tt == OpenBraceToken {
 		p.next()
+		p.in = true // initializers and computed keys in a binding pattern allow the in operator, also in a for statement
 		object := BindingObject{}
 		for p.tt != CloseBraceToken {
 			// binding rest property
@@ -1783,7 +1786,10 @@ func (p *Parser) parseExpression(prec OpPrec) IExpr {
 		} else {
 			newExpr := &NewExpr{p.parseExpression(OpNew), nil}
 			if p.tt == OpenParenToken {
+				prevIn := p.in
+				p.in = true
 				args := p.parseArguments()
+				p.in = prevIn
 				if len(args.List) != 0 {
 					newExpr.Args = &args
 				}
@@ -2035,10 +2041,16 @@ func (p *Parser) parseExpressionSuffix(left IExpr, prec, precLeft OpPrec) IExpr 
 			}
 			p.next()
 			if p.tt == OpenParenToken {
+				prevIn := p.in
+				p.in = true
 				left = &CallExpr{left, p.parseArguments(), OpOpt, true}
+				p.in = prevIn
 			} else if p.tt == OpenBracketToken {
 				p.next()
+				prevIn := p.in
+				p.in = true
 				left = &IndexExpr{left, p.parseExpression(OpExpr), OpOpt, true}
+				p.in = prevIn
 				if !p.consume("optional chaining expression", CloseBracketToken) {
 					return nil
 				}
